@@ -1,0 +1,101 @@
+//go:build verif
+
+package goat
+
+import (
+	"sync"
+	"time"
+
+	"github.com/avos-io/goat/internal/verifhook"
+)
+
+// This file only exists with -tags verif: read-only accessors for the external
+// verification harness.
+
+// VerifSetHook installs the callback run at every instrumentation point.
+func VerifSetHook(fn func(point string, id uint64)) { verifhook.Set(fn) }
+
+var verifHandlers struct {
+	sync.Mutex
+	list []*handler
+}
+
+func verifTrackHandler(h *handler) {
+	verifHandlers.Lock()
+	verifHandlers.list = append(verifHandlers.list, h)
+	verifHandlers.Unlock()
+}
+
+// VerifResetTracking forgets all server connection handlers tracked so far.
+func VerifResetTracking() {
+	verifHandlers.Lock()
+	verifHandlers.list = nil
+	verifHandlers.Unlock()
+}
+
+// VerifServerStreamCounts returns, per Serve call since the last reset, the
+// number of registered streams (read under the handler's own lock).
+func VerifServerStreamCounts() []int {
+	verifHandlers.Lock()
+	hs := append([]*handler(nil), verifHandlers.list...)
+	verifHandlers.Unlock()
+	out := make([]int, len(hs))
+	for i, h := range hs {
+		h.mu.Lock()
+		out[i] = len(h.streams)
+		h.mu.Unlock()
+	}
+	return out
+}
+
+// VerifClientRegistrySize is the number of calls registered on the connection.
+func VerifClientRegistrySize(cc *ClientConn) int { return cc.mp.VerifRegistrySize() }
+
+// VerifClientReadErr is the recorded transport read error, if any.
+func VerifClientReadErr(cc *ClientConn) error { return cc.mp.VerifReadErr() }
+
+// VerifParseGrpcTimeout exposes the grpc-timeout header parser.
+func VerifParseGrpcTimeout(s string) (time.Duration, bool) { return parseGrpcTimeout(s) }
+
+// VerifProxyPeers lists the names in the proxy's peer table.
+func VerifProxyPeers(p *Proxy) []string {
+	p.mutex.Lock()
+	defer p.mutex.Unlock()
+	out := make([]string, 0, len(p.clients))
+	for k := range p.clients {
+		out = append(out, k)
+	}
+	return out
+}
+
+// VerifProxyPeerConn returns the transport registered under name, or nil.
+func VerifProxyPeerConn(p *Proxy, name string) RpcReadWriter {
+	p.mutex.Lock()
+	defer p.mutex.Unlock()
+	if c, ok := p.clients[name]; ok {
+		return c.conn
+	}
+	return nil
+}
+
+// VerifDemuxKeys lists the keys with a live logical connection.
+func VerifDemuxKeys(d *Demux) []string {
+	d.conns.Lock()
+	defer d.conns.Unlock()
+	out := make([]string, 0, len(d.conns.value))
+	for k := range d.conns.value {
+		out = append(out, k)
+	}
+	return out
+}
+
+// VerifHttpConns lists the addresses with a live HTTP logical connection.
+func VerifHttpConns(g *GoatOverHttp) []string {
+	g.conns.Lock()
+	defer g.conns.Unlock()
+	out := make([]string, 0, len(g.conns.value))
+	for k := range g.conns.value {
+		out = append(out, k)
+	}
+	return out
+}
